@@ -25,6 +25,7 @@ type Immutable struct {
 	Pkg, Type string
 	Fields    []string
 	Props     []string
+	Writers   []string // `writers=F,G`: functions that may write the fields of ANY object of the type (besides allocators)
 }
 
 func (e *Engine) immutableNamed(im *Immutable) (*types.Named, *types.Struct) {
@@ -74,7 +75,12 @@ func (c *FuncCtx) immutablePreserved(k HeapKey, sym string, before *State) {
 	old := before.get(k)
 	w := before.watermark()
 	c.axiom(fmt.Sprintf("(forall ((p!im Int)) (! (=> (<= p!im %s) (= (select %s p!im) (select %s p!im))) :pattern ((select %s p!im))))", w, sym, old, sym), sym)
-	c.note("field %s is declared immutable after construction (checked syntactically): unknown code leaves it unchanged", c.immutKeys[k.Name])
+	c.note("field %s is written only by its declared writers / allocators (checked syntactically): unknown code leaves it unchanged", c.immutKeys[k.Name])
+	for _, im := range c.eng.cs.Immutables {
+		if len(im.Writers) > 0 && strings.HasPrefix(c.immutKeys[k.Name], im.Type+".") {
+			c.assume("unknown code called from the verified function does not call back into the declared writers of " + c.immutKeys[k.Name] + " (" + strings.Join(im.Writers, ", ") + ")")
+		}
+	}
 }
 
 // immutableObligations: the syntactic check, one obligation per declared field.
@@ -130,7 +136,7 @@ func (e *Engine) immutableObligations(prop string) (map[*Obligation]*FuncCtx, []
 							if !hit {
 								continue
 							}
-							if _, own := fa.X.(*ssa.Alloc); !own {
+							if _, own := fa.X.(*ssa.Alloc); !own && !im.isWriter(fn) {
 								bad[f] = append(bad[f], fmt.Sprintf("%s writes %s.%s of an object it did not allocate (%s)", fn.String(), im.Type, f, e.posString(in.Pos())))
 							}
 							continue
@@ -138,7 +144,7 @@ func (e *Engine) immutableObligations(prop string) (map[*Obligation]*FuncCtx, []
 						// whole-value store through *T
 						pt, _ := stI.Addr.Type().Underlying().(*types.Pointer)
 						if pt != nil && types.Identical(types.Unalias(pt.Elem()), n) {
-							if _, own := stI.Addr.(*ssa.Alloc); !own {
+							if _, own := stI.Addr.(*ssa.Alloc); !own && !im.isWriter(fn) {
 								for _, f := range im.Fields {
 									bad[f] = append(bad[f], fmt.Sprintf("%s overwrites a whole %s it did not allocate (%s)", fn.String(), im.Type, e.posString(in.Pos())))
 								}
@@ -168,6 +174,23 @@ func (e *Engine) immutableObligations(prop string) (map[*Obligation]*FuncCtx, []
 		}
 	}
 	return ctxs, obls
+}
+
+// isWriter: fn is one of the declared writers (matched by its display name without the package).
+func (im *Immutable) isWriter(fn *ssa.Function) bool {
+	if len(im.Writers) == 0 {
+		return false
+	}
+	n := fnDisplayName(fn)
+	if i := strings.Index(n, "."); i >= 0 {
+		n = n[i+1:]
+	}
+	for _, w := range im.Writers {
+		if w == n {
+			return true
+		}
+	}
+	return false
 }
 
 func shortPkg(p string) string {
